@@ -36,11 +36,24 @@ def run(ctx):
         tag, path, expect, m, tool = j
         rc, err, n = fc.run_tool(bdir, tool, path, os.path.join(wd, "run", tag + "_" + tool))
         ds = diag.parse(err, tbl)
-        return tag, tool, rc, [{"sev": x["sev"]} for x in ds], n, err
+        return tag, tool, rc, [{"sev": x["sev"], "code": x["code"]} for x in ds], n, err
     res = {}
     with cf.ThreadPoolExecutor(max_workers=14) as ex:
         for tag, tool, rc, ds, n, err in ex.map(one, jobs):
             res[(tag, tool)] = (rc, ds, n, err)
+    # self-check against vacuity: a mutant class that names a diagnostic family must provoke that family at least once
+    # (a mutant that is rejected for an unrelated reason - say a syntax error in the harness' rendering - proves nothing)
+    printed = {}
+    for tag, path, expect, m, c in ins:
+        if m and m.get("code"):
+            hit = any(x["code"] == m["code"] for tool in fc.TOOLS for x in res[(tag, tool)][1])
+            printed.setdefault(m["class"].split("_long")[0] + (":" + m["pos"] if m.get("pos") and not m["class"].startswith("tok_") else ""), []).append(hit)
+    # (the argument-count diagnostic is a warning that is only printed on request: C20 asks for it, this check does not)
+    vac = sorted(k for k, v in printed.items() if not any(v) and not k.startswith(("lex_nonascii", "argcount")))
+    if vac:
+        from vf.common import InfraError
+        raise InfraError("mutant classes that never provoke their diagnostic family (vacuous): %s" % vac)
+    cov["family_printed_by_class"] = {k: "%d/%d" % (sum(v), len(v)) for k, v in sorted(printed.items())}
     lines = []
     owner = []
     for tag, path, expect, m, c in ins:
@@ -49,7 +62,7 @@ def run(ctx):
         for tool in fc.TOOLS:
             rc, ds, n, err = res[(tag, tool)]
             lines.append(json.dumps({"e": "Run", "tag": tag, "tool": tool, "expect": expect, "mclass": m["class"] if m else "",
-                                     "rc": rc if -1 < rc < 1000 else 999, "diags": ds, "nfiles": n}))
+                                     "rc": rc if -1 < rc < 1000 else 999, "diags": [{"sev": x["sev"]} for x in ds], "nfiles": n}))
             owner.append(tag)
     got = fc.validate(ctx, lines, wd)
     byin = {t: (p, e, m, c) for t, p, e, m, c in ins}
